@@ -266,4 +266,181 @@ Section P.
       exists x. eexists. split; [reflexivity|]. split; [reflexivity | exact Hx].
   Qed.
 
+  (* ---------------------------------------------------------------- run *)
+
+  Lemma run_flow_wf_parts fl : run_flow_wf fl = true ->
+    fl_machine_run fl = can_machine_run /\ fl_run_prepare fl = can_run_prepare
+    /\ norm (fl_run_exit fl) = can_run_exit /\ fl_cond fl = can_cond /\ fl_pandora_run fl = can_pandora_run.
+  Proof.
+    unfold run_flow_wf, block_eqb. intros H.
+    repeat (apply andb_true_iff in H; destruct H as [H ?]).
+    repeat match goal with
+           | H : (if list_eq_dec stmt_eq_dec ?a ?b then true else false) = true |- _ =>
+               destruct (list_eq_dec stmt_eq_dec a b); [|discriminate H]; clear H
+           end.
+    auto.
+  Qed.
+
+  (* is_not_last_scale *)
+  Lemma sem_cond_can fl : fl_cond fl = can_cond -> forall st,
+    sem_cond check_tbl run_tbl cb dotted other_kind sorted_steps fl st = negb (m_scale (f_m st) =? 0).
+  Proof.
+    intros E st. unfold sem_cond. rewrite E. unfold can_cond. rewrite block_cons. cbn [exec_stmt beval zeval].
+    destruct (m_scale (f_m st) =? 0); reflexivity.
+  Qed.
+
+  Definition run_loop_body : list stmt := [ SCall FRun; SIf (BStateIs Begin) [SBreak] [] ].
+
+  (* one iteration of the inner loop of pandora.run: machine.run(elem, cfg) then the test of the break *)
+  Definition run_iter (cnd : fstate -> bool) (s : step) (st : fstate) : fres :=
+    match trigger cb cnd (Some PRun) (s_kind s) s st with
+    | ONormal st' => if state_eqb (m_st (f_m st')) Begin then OBreak st' else ONormal st'
+    | ORaise x st' => ORaise x st'
+    | _ => OStuck
+    end.
+
+  Lemma trigger_shape cnd ph k s st :
+    match trigger cb cnd ph k s st with ONormal _ | ORaise _ _ => True | _ => False end.
+  Proof.
+    unfold trigger. destruct ph as [ph|]; [|exact I]. destruct k as [k|]; [|exact I].
+    destruct (fire _ _ _ _ _); try exact I.
+    unfold callback. destruct ph.
+    - destruct (cb _ _ _); exact I.
+    - destruct (_ && _); exact I.
+  Qed.
+
+  Lemma run_body_iter fl cnd e s st : fl_machine_run fl = can_machine_run ->
+    block (exec cnd (run_calls check_tbl run_tbl cb dotted other_kind sorted_steps fl)) run_loop_body (set_cur e s) st
+    = run_iter (sem_cond check_tbl run_tbl cb dotted other_kind sorted_steps fl) s st.
+  Proof.
+    intros E. unfold run_loop_body, run_iter. rewrite block_cons. cbn [exec_stmt callee_env run_calls].
+    rewrite E. unfold can_machine_run. rewrite block_cons. cbn [exec_stmt]. rewrite block_cons.
+    cbn [exec_stmt set_cur e_cur].
+    change (phase_of_prefix "") with (Some PRun).
+    change (sel_kind dotted other_kind (SelIdx "." 0) s) with (s_kind s).
+    pose proof (trigger_shape (sem_cond check_tbl run_tbl cb dotted other_kind sorted_steps fl) (Some PRun) (s_kind s) s st) as Hs.
+    destruct (trigger cb _ (Some PRun) (s_kind s) s st) as [st'| |x st'| |]; try contradiction.
+    - rewrite block_nil. cbv iota beta. rewrite block_nil. cbn [as_call]. rewrite block_cons. cbn [exec_stmt beval].
+      destruct (state_eqb (m_st (f_m st')) Begin); reflexivity.
+    - destruct (catches handled x); reflexivity.
+  Qed.
+
+  (* the inner loop of pandora.run IS run_steps *)
+  Lemma run_loop (p : list step) : forall m l r sc tr,
+    let cnd := fun st => negb (m_scale (f_m st) =? 0) in
+    match run_steps m p tr with
+    | (m', tr', Err) => exists x, for_steps (run_iter cnd) p (mkF m l r sc tr) = ORaise x (mkF m' l r sc tr')
+    | (m', tr', _) => for_steps (run_iter cnd) p (mkF m l r sc tr) = ONormal (mkF m' l r sc tr')
+    end.
+  Proof.
+    induction p as [|s rest IH]; intros m l r sc tr cnd.
+    - reflexivity.
+    - cbn [run_steps for_steps]. unfold run_iter at 1 3 5. unfold trigger.
+      destruct (s_kind s) as [k|].
+      2:{ eexists; reflexivity. }
+      unfold cnd at 1 3 5. cbn [f_m].
+      destruct (fire (m_regs m) (m_st m) PRun k (negb (m_scale m =? 0))) as [d| | |].
+      + unfold callback, with_m. cbn [f_m f_left f_right f_scales f_trace m_rdm m_scale m_st set_st].
+        destruct (kind_eqb k Val && negb (m_rdm m)).
+        { eexists; reflexivity. }
+        assert (Hst : forall b : bool, m_st (if b then set_scale (set_st m d) (m_scale m - 1) else set_st m d) = d)
+          by (intros []; reflexivity).
+        cbn [f_m]. rewrite Hst.
+        destruct (state_eqb d Begin).
+        * reflexivity.
+        * apply IH.
+      + cbn [f_m]. destruct (state_eqb (m_st m) Begin).
+        * reflexivity.
+        * apply IH.
+      + eexists; reflexivity.
+      + eexists; reflexivity.
+  Qed.
+
+  (* the scale loop of pandora.run IS scale_loop *)
+  Lemma scale_loop_exec (p : list step) (F : fstate -> fres) :
+    (forall st, F st = for_steps (run_iter (fun st => negb (m_scale (f_m st) =? 0))) p st) ->
+    forall (n : nat) m l r sc tr,
+    match scale_loop n m p tr with
+    | (m', tr', true) => for_n n F (mkF m l r sc tr) = ONormal (mkF m' l r sc tr')
+    | (m', tr', false) => exists x, for_n n F (mkF m l r sc tr) = ORaise x (mkF m' l r sc tr')
+    end.
+  Proof.
+    intros HF. induction n as [|n IH]; intros m l r sc tr.
+    - reflexivity.
+    - rewrite scale_loop_S. cbn [for_n]. rewrite HF.
+      pose proof (run_loop p m l r sc tr) as HL. cbv zeta in HL.
+      destruct (run_steps m p tr) as [[m1 tr1] stt].
+      destruct stt.
+      + rewrite HL. apply IH.
+      + rewrite HL. apply IH.
+      + destruct HL as (x & ->). exists x. reflexivity.
+  Qed.
+
+  Notation semr := (sem_run check_tbl run_tbl cb dotted other_kind sorted_steps).
+
+  (* THE TIE (run): what the regenerated control flow of pandora.run / PandoraMachine.run / run_prepare /
+     run_exit / is_not_last_scale computes is what Model.Machine.run computes -- same verdict, same callback
+     trace, same machine afterwards; a run that ends returns (left_disparity, right_disparity) *)
+  Theorem sem_run_model fl : run_flow_wf fl = true ->
+    forall st p (n : nat), (n >= 1)%nat -> f_trace st = [] ->
+    match run run_tbl (f_m st) p n with
+    | RunOk m' tr =>
+        semr fl st p (Z.of_nat n) = OReturn (RProducts SL SR) (mkF m' (f_left st) (f_right st) (Z.of_nat n) tr)
+    | RunError m' tr =>
+        exists x, semr fl st p (Z.of_nat n) = ORaise x (mkF m' (f_left st) (f_right st) (Z.of_nat n) tr)
+    end.
+  Proof.
+    intros Hwf st p n Hn Htr. destruct (run_flow_wf_parts fl Hwf) as (E1 & E2 & E3 & E4 & E5).
+    destruct st as [m l r sc tr]. cbn [f_m f_left f_right f_trace] in *. subst tr.
+    unfold sem_run. rewrite E5. unfold can_pandora_run.
+    rewrite block_cons. cbn [exec_stmt]. rewrite block_cons. cbn [exec_stmt callee_env run_calls].
+    rewrite E2. unfold can_run_prepare.
+    set (m0 := mkM (m_st m) (m_regs m ++ run_tbl) (has_kind Val p) (Z.of_nat n - 1)).
+    assert (Hprep : block (exec (sem_cond check_tbl run_tbl cb dotted other_kind sorted_steps fl) no_calls)
+                      [SIf (BOr (BParamNone "num_scales") (BParamNone "scale_factor")) [SSetScales (ZConst 1)] [SSetScales ZParamScales];
+                       SIf (BZGt ZSelfScales (ZConst 1)) [SSetScale (ZSub ZParamScales (ZConst 1))] [SSetScale (ZConst 0)];
+                       SIf (BAnyStep Val) [SSetRdmCfg] [SSetRdmNone];
+                       SAddTransitions TRun]
+                      (mkEnv p (Z.of_nat n) SL SR false None) (mkF m l r sc [])
+                    = ONormal (mkF m0 l r (Z.of_nat n) [])).
+    { rewrite block_cons. cbn [exec_stmt beval orb]. rewrite block_cons. cbn [exec_stmt zeval e_n]. rewrite block_nil.
+      rewrite block_cons. cbn [exec_stmt beval zeval f_scales e_n f_m f_left f_right f_trace].
+      destruct (Z.gtb_spec (Z.of_nat n) 1);
+        rewrite block_cons; cbn [exec_stmt zeval e_n]; rewrite block_nil;
+        (rewrite block_cons; cbn [exec_stmt beval e_p]; unfold with_m;
+         cbn [f_m f_left f_right f_scales f_trace set_scale set_rdm set_regs m_st m_regs m_rdm m_scale];
+         destruct (has_kind Val p) eqn:Ev; rewrite block_cons; cbn [exec_stmt]; rewrite block_nil;
+         rewrite block_cons; cbn [exec_stmt table]; rewrite block_nil; unfold with_m;
+         cbn [f_m f_left f_right f_scales f_trace set_scale set_rdm set_regs m_st m_regs m_rdm m_scale];
+         unfold m0, set_regs, set_rdm, set_scale; cbn [m_st m_regs m_rdm m_scale];
+         try reflexivity; replace (Z.of_nat n - 1) with 0 by lia; reflexivity). }
+    rewrite Hprep. clear Hprep. cbn [as_call].
+    rewrite block_cons. cbn [exec_stmt zeval f_scales]. rewrite Nat2Z.id.
+    unfold run, run_from. fold m0.
+    pose proof (scale_loop_exec p
+      (fun st' => block (exec (sem_cond check_tbl run_tbl cb dotted other_kind sorted_steps fl)
+                           (run_calls check_tbl run_tbl cb dotted other_kind sorted_steps fl))
+                    [SForSteps ODict [SCall FRun; SIf (BStateIs Begin) [SBreak] []]]
+                    (mkEnv p (Z.of_nat n) SL SR false None) st')) as HS.
+    assert (HF : forall st,
+      block (exec (sem_cond check_tbl run_tbl cb dotted other_kind sorted_steps fl)
+               (run_calls check_tbl run_tbl cb dotted other_kind sorted_steps fl))
+        [SForSteps ODict [SCall FRun; SIf (BStateIs Begin) [SBreak] []]]
+        (mkEnv p (Z.of_nat n) SL SR false None) st
+      = for_steps (run_iter (fun st => negb (m_scale (f_m st) =? 0))) p st).
+    { intros st. rewrite block_cons. cbn [exec_stmt order_steps e_p]. fold run_loop_body.
+      rewrite (for_steps_ext _ (run_iter (fun st => negb (m_scale (f_m st) =? 0))) p).
+      - destruct (for_steps _ p st); reflexivity.
+      - intros x st'. rewrite (run_body_iter fl _ _ x st' E1). unfold run_iter, trigger.
+        rewrite (sem_cond_can fl E4). reflexivity. }
+    specialize (HS HF n m0 l r (Z.of_nat n) []).
+    destruct (scale_loop n m0 p []) as [[m1 tr1] ok]. destruct ok.
+    - rewrite HS. rewrite block_cons. cbn [exec_stmt callee_env run_calls].
+      rewrite <- (block_norm _ _ _ _ (le_n _)), E3. unfold can_run_exit.
+      rewrite block_cons. cbn [exec_stmt]. rewrite block_cons. cbn [exec_stmt]. rewrite block_nil. cbn [as_call].
+      rewrite block_cons. cbn [exec_stmt]. unfold with_m.
+      cbn [f_m f_left f_right f_scales f_trace table]. reflexivity.
+    - destruct HS as (x & ->). exists x. reflexivity.
+  Qed.
+
 End P.
